@@ -109,7 +109,8 @@ def build_ds(case):
         shp = [sizes[d] for d in c["dims"]]
         vals = (np.arange(int(np.prod(shp, dtype=int))).reshape(shp) * 1.0 + 10.0 * c["seed"]) if shp else np.float64(c["seed"] + 0.5)
         coords[c["name"]] = xr.DataArray(vals, dims=list(c["dims"]), attrs=dict(c["attrs"]))
-    ds = xr.Dataset({"_shape": (tuple(sizes), np.zeros(tuple(sizes.values())))}, coords=coords)
+    # one 1-D variable per dimension makes every dimension known to the dataset, with or without a dimension coordinate
+    ds = xr.Dataset({"_len_" + d: ((d,), np.zeros(n)) for d, n in sizes.items()}, coords=coords)
     for a in case["axes"]:
         for p in a["positions"]:
             d = gen.dim_name(a["name"], p)
